@@ -20,12 +20,30 @@ RULE = ('cases = (statement text from the typed SQL model over schema t1..t4, ta
         'SQLite does not read, judged against the equivalent SQLite spelling (WITH in front of a parenthesised set '
         'operation = the same without the parentheses; OFFSET n without LIMIT = LIMIT -1 OFFSET n).  Third, exhaustive: '
         'x OP1 y OP2 z without parentheses for every ordered pair of operators, target sqlite (operator rank is '
-        'engine-specific), over all pairs of column values')
+        'engine-specific), over all pairs of column values.  Fourth, exhaustive: every sort direction {none, ASC, DESC} x '
+        '{no modifier, NULLS FIRST, NULLS LAST} at every place an ORDER BY key can stand (alias / source column / expression '
+        '/ ordinal, first / later key, with LIMIT / OFFSET, DISTINCT, aggregate, inside a derived table / IN sub-query / CTE '
+        'with LIMIT, in OVER (...) with and without PARTITION BY; two keys: all 81 pairs) x 3 targets x 2 tables with NULLs '
+        'and duplicates.  Fifth stream (c06_shapes.reuse): ONE renderer object renders 1-3 earlier statements (`history`, '
+        'default fallback; statements the renderer refuses at every operand position of plain and nested set operations, '
+        'refused statements, rendered statements of every kind) and then the judged statement (WITH inside an IN / EXISTS / '
+        'scalar / derived-table / join-operand / DML sub-query or inside a set-operation operand, the CTE called like a table '
+        'read outside of it; or any case of the other streams): the rendering by the used object is judged like any other.  '
+        'Shapes also cover operands of set operations (flat chains, parenthesised operands, operands with their own WITH '
+        'clause, first columns written qualified / bare / as expressions): SQLite reads no parenthesised operand, the '
+        'ground truth is the statement with every parenthesised operand P spelled SELECT * FROM (P)')
 ASSUMPTIONS = ['sqlite3 (SQLite 3.40) is the reference engine; mysql/postgresql output is judged only when SQLite can '
                'execute it', 'the statement is parsed with the mindsdb dialect; parsing itself is not judged here',
                'MSSQL / Oracle output cannot be executed here',
                'the meaning of a type name (CAST(x AS STRING) is numeric in SQLite), of a double-quoted name and of a '
-               'backslash in a string constant is engine-specific: not judged']
+               'backslash in a string constant is engine-specific: not judged',
+               'CREATE TABLE: the length of a type (varchar(10) is rendered as VARCHAR), INT -> BIGINT and the NOT NULL '
+               'a PRIMARY KEY column gets are not judged: SQLite ignores lengths, gives both types the same affinity and '
+               'lets NULL into a non-INTEGER primary key only as a documented legacy quirk (in SQL, and in MySQL / '
+               'PostgreSQL, a primary key column is NOT NULL); the table contents after the statement are the same',
+               'a parenthesised operand P of a set operation means SELECT * FROM (P) (used as the SQLite spelling of P)',
+               'a renderer object may be used for any number of statements (nothing in its interface says otherwise); '
+               'the statements rendered before the judged one are part of the configuration']
 FLOORS = {'quick': {'__nontrivial__': 400, 'target:sqlite': 800, 'kind:select': 1200, 'kind:dml': 300,
                     'tag:join:FULL OUTER JOIN': 150, 'tag:join:LEFT OUTER JOIN': 150, 'tag:join:LEFT JOIN': 150,
                     'tag:order': 600, 'tag:limit': 300, 'tag:group': 400, 'tag:window': 200, 'tag:distinct': 400,
@@ -35,10 +53,17 @@ FLOORS = {'quick': {'__nontrivial__': 400, 'target:sqlite': 800, 'kind:select': 
                     'tag:op:plus-text-operand': 40, 'tag:bool-typed-operand': 40, 'tag:op:json-arrow': 8,
                     'tag:order:names-column-spelled-like-added-label': 15, 'tag:alias:exists': 8,
                     'tag:dml:create-if-not-exists:table-exists': 8, 'tag:cte:on-parenthesised-setop': 5,
-                    'tag:offset:without-limit': 15, 'tag:name:anon_N-in-statement': 15, 'tag:const:exponent': 12},
+                    'tag:offset:without-limit': 15, 'tag:name:anon_N-in-statement': 15, 'tag:const:exponent': 12,
+                    'tag:order-matrix': 2160, 'tag:order-key:no-direction/NULLS LAST': 240, 'tag:order-matrix:window-rank': 54,
+                    'tag:reuse': 150, 'tag:reuse:history:refused-in-nested-setop': 80, 'tag:reuse:history:rendered': 25,
+                    'tag:reuse:refused-nested-setop-then-scoped-cte': 15,
+                    'tag:cte:in-subquery': 100, 'tag:cte:name-shadows-outer-table': 80,
+                    'tag:cte:own-of-parenthesised-operand': 15, 'tag:setop-operand': 55, 'tag:setop:parenthesised-operand': 40,
+                    'tag:setop:nested-operand-first-column:qualified': 12, 'tag:added-label:func': 3},
           'thorough': {'__nontrivial__': 5000, 'kind:select': 15000, 'kind:dml': 3500}}
 N = {'quick': 300, 'thorough': 4000}
-N_SHAPES = {'quick': 100, 'thorough': 1200}
+N_SHAPES = {'quick': 130, 'thorough': 1500}
+N_REUSE = {'quick': 90, 'thorough': 1000}
 TARGETS = ['sqlite', 'sqlite', 'mysql', 'postgresql']
 CFG = model.Cfg(places={}, always_alias=True, order_by_source=True)
 CFG2 = model.Cfg(places={}, always_alias=False, order_by_source=True)
@@ -52,6 +77,20 @@ def prepare(tier):
 def _render(tree, target):
     from mindsdb_sql.render.sqlalchemy_render import SqlalchemyRender
     return SqlalchemyRender(target).get_string(tree, with_failback=False)
+
+
+def _used_renderer(target, history):
+    """a renderer object that has rendered the statements of `history` (default fallback: what it cannot render comes
+    back as the plain text of the statement, the caller sees no error)"""
+    from mindsdb_sql import parse_sql
+    from mindsdb_sql.render.sqlalchemy_render import SqlalchemyRender
+    r = SqlalchemyRender(target)
+    for h in history:
+        try:
+            r.get_string(parse_sql(h, 'mindsdb'))
+        except Exception:
+            pass            # not the judged statement
+    return r
 
 
 def judge(case, col):
@@ -82,10 +121,12 @@ def judge(case, col):
     stmts = stmts if isinstance(stmts, list) else [stmts]
     text = str(case.get('sql_parsed') or sql)
     rendered = []
+    history = case.get('history')
     try:
+        used = _used_renderer(target, history) if history else None
         for stmt in stmts:
             tree = parse_sql(stmt, 'mindsdb')
-            rendered.append(_render(tree, target))
+            rendered.append(used.get_string(tree, with_failback=False) if used is not None else _render(tree, target))
     except (NotImplementedError, SQLAlchemyError) as e:
         col.excluded('renderer: unsupported (' + type(e).__name__ + ': ' + str(e)[:60].replace('\n', ' ') + ')')
         col.case((target, str(sql)), False, classes + ['unsupported'])
@@ -104,7 +145,7 @@ def judge(case, col):
         if target == 'sqlite':
             out.append(findings.record('rendered-not-executable', 'sqlite', tags, cfg,
                                        f'{e}; rendered: {rendered}', text))
-            col.case((target, str(sql), str(case.get('sql_parsed')), str(data)), False, classes + ['not-executable:sqlite'])
+            col.case((target, str(sql), str(case.get('sql_parsed')), str(data), str(history)), False, classes + ['not-executable:sqlite'])
         else:
             col.excluded(f'{target} output not executable in sqlite')
             col.case((target, str(sql)), False, classes + ['not-executable:' + target])
@@ -143,7 +184,7 @@ def judge(case, col):
             except sqlite3.Error:
                 pass
         nontrivial = any(da.get(k) != before.get(k) for k in names)
-    col.case((target, str(sql), str(case.get('sql_parsed')), str(data)), nontrivial, classes,
+    col.case((target, str(sql), str(case.get('sql_parsed')), str(data), str(history)), nontrivial, classes,
              {'target': target, 'sql': sql, 'rendered': rendered, 'rows': len(truth) if truth is not None else None})
     return out
 
@@ -239,11 +280,21 @@ def shape_cases(draw):
     return c
 
 
+@st.composite
+def reuse_cases(draw):
+    c = c06_shapes.reuse(draw, st.one_of(cases(), shape_cases()))
+    if 'target' not in c:
+        # the state a renderer keeps may depend on the dialect: sqlite has the most rewrites of its own
+        c['target'] = draw(st.sampled_from(['sqlite', 'sqlite', 'sqlite', 'mysql', 'postgresql']))
+    return c
+
+
 def run_shard(col, k, nshards, tier, seed):
     key = lambda r: (r['kind'], r['site'][:40])
     hyp.explore(col, cases(), judge, N[tier], seed, shrink_key=key)
     hyp.explore(col, shape_cases(), judge, N_SHAPES[tier], seed + 1, shrink_key=key)
-    for i, c in enumerate(c06_shapes.rank_cases()):
+    hyp.explore(col, reuse_cases(), judge, N_REUSE[tier], seed + 2, shrink_key=key)
+    for i, c in enumerate(c06_shapes.rank_cases() + c06_shapes.order_matrix_cases()):
         if i % nshards == k:
             for rec in judge(c, col):
                 col.fail(rec, c)
@@ -251,3 +302,5 @@ def run_shard(col, k, nshards, tier, seed):
         col.exhaustive_parts.append('operator rank: x OP1 y OP2 z without parentheses for every ordered pair of %d binary '
                                     'operators (two operand fillings) and NOT / unary minus before each, over all pairs '
                                     'of column values, target sqlite' % len(c06_shapes.BINARY))
+        col.exhaustive_parts.append('ORDER BY key: {none, ASC, DESC} x {none, NULLS FIRST, NULLS LAST} at %d places (two-key '
+                                    'places: all 81 pairs) x 3 targets x 2 tables' % len(c06_shapes._order_places()))
